@@ -97,3 +97,43 @@ Print Assumptions C18_cli_default.
 Theorem C18_duration_text_nonempty : forall ns, dur_display ns <> [].
 Proof. exact dur_display_nonempty. Qed.
 Print Assumptions C18_duration_text_nonempty.
+
+(** *** dates as text (DateFmt.v: chrono's to_rfc3339 / Display / Debug on DateTime<Utc>, compared byte for byte with
+    the binary on every run; which path uses which form is read from the source, [Generated.date_forms]) *)
+From AG Require Import DateFmt DateFmt_proofs.
+
+(** "values encoded without loss": the JSON text of a date determines the instant - for EVERY instant, signed years
+    included - and, where the tool's own parseDate (as modelled) reads RFC 3339, reads back as the instant that went in *)
+Theorem C18_date_json_text_injective : forall a b : Z, fmt_rfc3339 a = fmt_rfc3339 b -> a = b.
+Proof. exact rfc3339_injective. Qed.
+Print Assumptions C18_date_json_text_injective.
+
+Theorem C18_date_json_text_reads_back : forall ns,
+  date_ok ns = true -> year_parseable ns = true -> parse_rfc3339_utc (fmt_rfc3339 ns) = Some ns.
+Proof. exact rfc3339_roundtrip. Qed.
+Print Assumptions C18_date_json_text_reads_back.
+
+(** the hypothesis is met (and is needed: the model of parseDate reads four-digit years 1678..2261 only) *)
+Example C18_date_reads_back_example :
+  date_ok 1628640000500000000 = true /\ year_parseable 1628640000500000000 = true /\
+  fmt_rfc3339 1628640000500000000 = lit "2021-08-11T00:00:00.500+00:00" /\
+  fmt_date_display (-1) = lit "1969-12-31 23:59:59.999999999 UTC".
+Proof. vm_compute. repeat split; reflexivity. Qed.
+Print Assumptions C18_date_reads_back_example.
+
+(** -o logfmt / -o format= / text: "the field's text" of a date determines the instant as well *)
+Theorem C18_date_text_injective : forall a b,
+  date_ok a = true -> date_ok b = true -> fmt_date_display a = fmt_date_display b -> a = b.
+Proof. exact display_injective. Qed.
+Print Assumptions C18_date_text_injective.
+
+(** the calendar arithmetic underneath, for every day number (proleptic Gregorian, either sign) *)
+Theorem C18_calendar_roundtrip : forall d,
+  let '(y, m, dd) := civil_from_days d in days_from_civil y m dd = d.
+Proof. exact civil_roundtrip. Qed.
+Print Assumptions C18_calendar_roundtrip.
+
+Theorem C18_calendar_ranges : forall d,
+  let '(y, m, dd) := civil_from_days d in 1 <= m <= 12 /\ 1 <= dd <= days_in_month y m.
+Proof. exact civil_ranges. Qed.
+Print Assumptions C18_calendar_ranges.
